@@ -595,7 +595,7 @@ func phaseWorker(args []string) int {
 			}
 		}
 	}
-	deadline := time.Now().Add(90 * time.Second)
+	deadline := time.Now().Add(time.Duration(watchdogSeconds()) * time.Second)
 	code := 0
 	for {
 		quiet := !notifierGoroutines()
@@ -610,6 +610,13 @@ func phaseWorker(args []string) int {
 		}
 		if time.Now().After(deadline) {
 			led.Log("drain-timeout")
+			buf := make([]byte, 1<<20)
+			buf = buf[:runtime.Stack(buf, true)]
+			for _, g := range strings.Split(string(buf), "\n\n") {
+				if strings.Contains(g, "network/dag.(*notifier)") {
+					fmt.Println(g)
+				}
+			}
 			code = 4
 			break
 		}
@@ -935,6 +942,7 @@ type caseResult struct {
 	fin      *finalState
 	reached  bool
 	broken   string
+	note     string
 }
 
 func runCase(sc *scenario, name string) *caseResult {
@@ -970,6 +978,7 @@ func runCase(sc *scenario, name string) *caseResult {
 			}
 		case wr.ExitCode == 4:
 			end = "timeout"
+			res.note = tail(wr.Output)
 		case wr.ExitCode != 0:
 			end = "broken"
 			res.broken = fmt.Sprintf("phase %d exit %d: %s", p, wr.ExitCode, tail(wr.Output))
@@ -1463,6 +1472,7 @@ func TestCheck(t *testing.T) {
 		name string
 	}
 	var jobs []job
+	only := os.Getenv("C14_ONLY") // debugging aid: run the cases whose name contains this
 	for i := 0; i < nScen; i++ {
 		rnd := r.Rand("scenario" + strconv.Itoa(i))
 		base := genScenario(rnd, r.Seed(), i, maxTx)
@@ -1478,6 +1488,15 @@ func TestCheck(t *testing.T) {
 		jobs = append(jobs, job{&sc, fmt.Sprintf("s%d/committed+%s", i, second)})
 	}
 
+	if only != "" {
+		var sel []job
+		for _, j := range jobs {
+			if strings.Contains(j.name+"$", only) {
+				sel = append(sel, j)
+			}
+		}
+		jobs = sel
+	}
 	results := make([]*caseResult, len(jobs))
 	sem := make(chan struct{}, 12)
 	var wg sync.WaitGroup
@@ -1512,7 +1531,7 @@ func TestCheck(t *testing.T) {
 			}
 		}
 		if inconclusive {
-			r.Inconclusive(fmt.Sprintf("case %s: a worker did not become quiescent before the watchdog", c.name))
+			r.Inconclusive(fmt.Sprintf("case %s: a worker did not become quiescent before the watchdog: %s", c.name, c.note))
 			allReached = false
 		}
 		if !c.reached {
@@ -1548,4 +1567,11 @@ func TestCheck(t *testing.T) {
 	r.Exhaustive(allReached)
 	r.Extra("scenarios", nScen)
 	r.Extra("crash_points", crashPoints)
+}
+
+func watchdogSeconds() int {
+	if v, err := strconv.Atoi(os.Getenv("C14_WATCHDOG")); err == nil && v > 0 {
+		return v
+	}
+	return 90
 }
